@@ -170,9 +170,16 @@ def main(argv=None):
             target = '%s:%s' % (m.fn.__module__, m.fn.__name__)
             base = {'name': m.name, 'target': target, 'params': params, 'timeout': timeout, 'per_path': per_path,
                     'kind': getattr(m, 'kind', 'chx'), 'meta': m}
-            jobs.append(dict(base, twin=False))
+            jobs.append(dict(base, twin=False, canary=False))
             if base['kind'] == 'chx':
-                jobs.append(dict(base, twin=True, timeout=m.twin_timeout))
+                jobs.append(dict(base, twin=True, canary=False, timeout=m.twin_timeout))
+        for params in getattr(m, 'canary', []):
+            params = dict(params)
+            timeout = params.pop('timeout', m.timeout)
+            per_path = params.pop('per_path', m.per_path)
+            target = '%s:%s' % (m.fn.__module__, m.fn.__name__)
+            jobs.append({'name': m.name, 'target': target, 'params': params, 'timeout': timeout, 'per_path': per_path,
+                         'kind': 'chx', 'meta': m, 'twin': False, 'canary': True})
     rnd = __import__('random').Random(seed)
     rnd.shuffle(jobs)
     jobs.sort(key=lambda j: -j['timeout'])
@@ -203,7 +210,7 @@ def main(argv=None):
             results.append((j, res))
             if a.v or (not j['twin']):
                 log('  %-7s %-28s %s %-10s paths=%-6s solver=%.1fs wall=%.1fs %s'
-                    % ('twin' if j['twin'] else j['kind'], j['name'], json.dumps(j['params']), res['verdict'],
+                    % ('twin' if j['twin'] else 'canary' if j.get('canary') else j['kind'], j['name'], json.dumps(j['params']), res['verdict'],
                        res.get('paths', '-'), res.get('solver_s', 0), res.get('wall_s', 0),
                        '' if res['verdict'] in ('CONFIRMED',) or j['twin'] else (res.get('message') or '')[:300].replace('\n', ' ')))
 
@@ -214,8 +221,17 @@ def main(argv=None):
     violations = []
     harness_errors = []
     lemma_rows = []
+    canaries = []
     for j, r in results:
-        if j['twin']:
+        if j.get('canary'):
+            ok = r['verdict'] == 'REFUTED'
+            canaries.append({'lemma': j['name'], 'params': j['params'], 'verdict': r['verdict'], 'ok': ok,
+                             'counterexample': r.get('args')})
+            if not ok:
+                inconclusive.append('canary %s %s was not refuted (%s): the lemma is not sensitive to a known-false variant'
+                                    % (j['name'], j['params'], r['verdict']))
+    for j, r in results:
+        if j['twin'] or j.get('canary'):
             continue
         obligations += 1
         key = (j['name'], json.dumps(j['params'], sort_keys=True))
@@ -310,7 +326,7 @@ def main(argv=None):
     paths = sum(r['paths'] for r in chx_rows)
     queries = sum(r['solver_queries'] for r in chx_rows)
     nontriv = sum(r['nontrivial_paths'] for r in chx_rows)
-    functions = sorted({f for j, r in results if not j['twin'] for f in r.get('functions', [])})
+    functions = sorted({f for j, r in results if not j['twin'] and not j.get('canary') for f in r.get('functions', [])})
     samples = []
     for row in lemma_rows:
         if row.get('twin_witness') is not None and len(samples) < 12:
@@ -345,6 +361,7 @@ def main(argv=None):
             'functions_executed': functions,
             'lemmas': lemma_rows,
             'side_conditions': side,
+            'canaries': canaries,
             'known_findings': findings_out,
             'harness_errors': harness_errors,
             'gate': {'cases': gate.get('cases', 0), 'deny': deny, 'cached': gate.get('cached', False),
